@@ -27,7 +27,8 @@ from collections.abc import MutableMapping
 from contextlib import contextmanager
 from struct import pack, unpack, unpack_from
 
-from .ebpf import AssembleError, Expression, Opcode, Map, FuncId
+from .ebpf import (
+    AssembleError, Expression, Opcode, Map, FuncId, ensure_expression)
 from .bpf import (
     MapType, UpdateFlags, create_map, delete_elem, get_next_key, lookup_elem,
     lookup_and_delete_elem, update_elem)
@@ -95,6 +96,11 @@ class HashGlobalVarDesc:
             update_elem(fd, pack("B", self.count),
                         pack("q" if self.fmt.islower() else "Q", value))
             return
+        value = ensure_expression(ebpf, value)
+        if self.fmt == "x" and not value.fixed:
+            value = value * Expression.FIXED_BASE
+        elif self.fmt != "x" and value.fixed:
+            value = value / Expression.FIXED_BASE
         with ebpf.save_registers([3]):
             with value.get_address(3, True, True):
                 with ebpf.save_registers([0, 1, 2, 4, 5]), \
